@@ -6,52 +6,77 @@ open CC CC.Spec
 open CC.Spec.PQ (Op Out)
 
 /-- in every state satisfying the invariant: `size ≤ capacity`, the buffer block has exactly
-`capacity` slots, the capacity is at least 1 and at most `CC_MAX_ELEMENTS` -/
+`capacity` slots, the capacity is at least 1 and its byte size `capacity * sizeof(void*)` is
+representable (`capacity ≤ CC_MAX_ELEMENTS / sizeof(void*)`) -/
 theorem size_le_capacity (cmp : Nat → Nat → Int) (q : PQueue) (h : PQueue.Inv' cmp q) :
-    q.size ≤ q.capacity ∧ q.buf.length = q.capacity ∧ 1 ≤ q.capacity ∧ q.capacity ≤ Gen.CC_MAX_ELEMENTS :=
+    q.size ≤ q.capacity ∧ q.buf.length = q.capacity ∧ 1 ≤ q.capacity ∧
+    q.capacity ≤ Gen.CC_MAX_ELEMENTS / PQueue.ptrSize :=
   ⟨h.1.1, h.1.2.1.symm, h.1.2.2.1, h.2⟩
 
-/-- … and these hold in every state reachable from the constructor by any history -/
+/-- … and these hold in every state reachable from the constructor by any history, for every growth
+law and every refusal schedule -/
 theorem reachable_size_le_capacity {cmp : Nat → Nat → Int} (tp : TotalPreorder cmp) (grow : Nat → Nat)
-    (hg : PQueue.GrowOk grow) (cap : Nat) (exGe : Nat → Bool) (hex : exGe 0 = true) (m0 : Mem) (q0 : PQueue)
-    (hnew : (PQueue.new cap exGe m0).2.1 = some q0) (ops : List Op) :
-    let q := (PQueue.run cmp grow q0 ops (PQueue.new cap exGe m0).2.2).2.1
-    q.size ≤ q.capacity ∧ q.buf.length = q.capacity ∧ 1 ≤ q.capacity ∧ q.capacity ≤ Gen.CC_MAX_ELEMENTS :=
-  size_le_capacity cmp _ (C10.new_history_refines tp grow hg cap exGe hex m0 q0 hnew ops).2.1
+    (cap : Nat) (exGe : Nat → Bool) (t : Triple) (m0 : Mem) (q0 : PQueue)
+    (hnew : (PQueue.new cap exGe t m0).2.1 = some q0) (ops : List Op) :
+    let q := (PQueue.run cmp grow q0 ops (PQueue.new cap exGe t m0).2.2).2.1
+    q.size ≤ q.capacity ∧ q.buf.length = q.capacity ∧ 1 ≤ q.capacity ∧
+    q.capacity ≤ Gen.CC_MAX_ELEMENTS / PQueue.ptrSize :=
+  size_le_capacity cmp _ (C10.new_history_refines tp grow cap exGe t m0 q0 hnew ops).2.1
 
-/-- **growth is strict**: a successful `expand_capacity` strictly increases the capacity, keeps the
-size and the first `size` slots, and the new byte size does not wrap -/
-theorem growth_strict (cmp : Nat → Nat → Int) (grow : Nat → Nat) (hg : PQueue.GrowOk grow) (q : PQueue) (m : Mem)
-    (h : PQueue.Inv' cmp q) (hl : 0 < m.live) (hok : (PQueue.expandCapacity grow q m).1 = .ok) :
+/-- **growth is strict**, whatever the growth law answers (a float product that makes no progress
+falls back to `capacity + 1`): a successful `expand_capacity` strictly increases the capacity, keeps
+the size and the first `size` slots, and the new byte size does not wrap -/
+theorem growth_strict (cmp : Nat → Nat → Int) (grow : Nat → Nat) (q : PQueue) (m : Mem)
+    (h : PQueue.Inv' cmp q) (hl : 0 < m.liveT q.triple) (hok : (PQueue.expandCapacity grow q m).1 = .ok) :
     q.capacity < (PQueue.expandCapacity grow q m).2.1.capacity ∧
     (PQueue.expandCapacity grow q m).2.1.size = q.size ∧
     (∀ j, j < q.size → (PQueue.expandCapacity grow q m).2.1.buf.get j = q.buf.get j) ∧
     (PQueue.expandCapacity grow q m).2.1.capacity * PQueue.ptrSize < 2 ^ 64 := by
-  obtain ⟨_, e2, e3, _, e5, _⟩ := PQueue.expand_spec_get cmp grow q m hg h hl hok
+  obtain ⟨_, e2, e3, _, e5, _⟩ := PQueue.expand_spec_get cmp grow q m h hl hok
   exact ⟨e3, e2, e5, PQueue.expand_ok_bytes grow q m hok⟩
 
-/-- a step never shrinks the capacity; push grows it only when the queue is full -/
-theorem capacity_monotone {cmp : Nat → Nat → Int} (tp : TotalPreorder cmp) (grow : Nat → Nat) (hg : PQueue.GrowOk grow)
-    (q : PQueue) (x : Nat) (m : Mem) (h : PQueue.Inv' cmp q) (hl : 0 < m.live) :
+/-- a push never shrinks the capacity; it changes it only when the queue is full -/
+theorem capacity_monotone {cmp : Nat → Nat → Int} (tp : TotalPreorder cmp) (grow : Nat → Nat)
+    (q : PQueue) (x : Nat) (m : Mem) (h : PQueue.Inv' cmp q) (hl : 0 < m.liveT q.triple) :
     q.capacity ≤ (PQueue.push cmp grow q x m).2.1.capacity ∧
     (q.size < q.capacity → (PQueue.push cmp grow q x m).2.1.capacity = q.capacity ∧ (PQueue.push cmp grow q x m).2.2 = m) := by
-  rcases PQueue.push_counts tp grow hg q x m h hl with ⟨_, k1, k2⟩ | ⟨_, kfull, _, _, _, k3⟩ | ⟨_, kfull, _, _, _, k3⟩
-  · exact ⟨by omega, fun _ => ⟨k2, k1⟩⟩
-  · have hge : q.capacity ≤ PQueue.newCapacity grow q := by
-      have hc := h.2
-      unfold PQueue.newCapacity; dsimp only
-      split
-      · split <;> omega
-      · omega
-    exact ⟨by omega, fun hh => by omega⟩
-  · rw [k3]; exact ⟨Nat.le_refl _, fun hh => by omega⟩
+  rw [PQueue.push_eq]
+  by_cases hfull : q.size ≥ q.capacity
+  · simp only [hfull, if_true]
+    rcases PQueue.expand_spec cmp grow q m h hl with ⟨e1, e2, e3, e4, _⟩ | ⟨e1, e2, _⟩
+    · have : ((PQueue.expandCapacity grow q m).1 != .ok) = false := by rw [e1]; rfl
+      simp only [this, Bool.false_eq_true, if_false]
+      have hroom : (PQueue.expandCapacity grow q m).2.1.size < (PQueue.expandCapacity grow q m).2.1.capacity := by
+        have := h.1.1; omega
+      rw [(PQueue.storeSift_spec tp _ x (PQueue.expandCapacity grow q m).2.2 e2 hroom).2.2.2.2.1]
+      exact ⟨by omega, fun hh => by omega⟩
+    · have : ((PQueue.expandCapacity grow q m).1 != .ok) = true := by
+        rcases e1 with ⟨e1, _⟩ | e1 <;> rw [e1] <;> rfl
+      simp only [this, if_true]
+      rw [e2]; exact ⟨Nat.le_refl _, fun hh => by omega⟩
+  · simp only [hfull, if_false]
+    have hs := PQueue.storeSift_spec tp q x m h (by omega)
+    rw [hs.2.2.2.2.1, hs.2.2.2.2.2]
+    exact ⟨Nat.le_refl _, fun _ => ⟨rfl, rfl⟩⟩
 
 /-- **O(log n) re-allocations**: with a growth law that at least doubles (the default factor 2),
 pushing any `n` elements onto a queue holding `size` elements performs at most
-`log2 (size + n) + 1` successful allocator calls, whatever the initial capacity ≥ 1 -/
-theorem appends_realloc_log {cmp : Nat → Nat → Int} (tp : TotalPreorder cmp) (grow : Nat → Nat) (hg : PQueue.GrowOk grow)
-    (hd : ∀ c, 2 * c ≤ grow c) (q : PQueue) (xs : List Nat) (m : Mem) (h : PQueue.Inv' cmp q) (hl : 0 < m.live) :
+`log2 (size + n) + 1` successful allocator calls, whatever the initial capacity ≥ 1.  The doubling
+hypothesis is the only one on `grow` and is satisfiable (`example` below); pushes that run into the
+capacity limit are answered with `CC_ERR_MAX_CAPACITY` without an allocator call, so the bound
+holds up to and beyond the limit.  (Stated for the configured triple, whose calls `nalloc` counts.) -/
+theorem appends_realloc_log {cmp : Nat → Nat → Int} (tp : TotalPreorder cmp) (grow : Nat → Nat)
+    (hd : ∀ c, 2 * c ≤ grow c) (q : PQueue) (xs : List Nat) (m : Mem) (h : PQueue.Inv' cmp q)
+    (ht : q.triple = .conf) (hl : 0 < m.live) :
     (PQueue.pushAll cmp grow q xs m).2.nalloc - m.nalloc ≤ Nat.log2 (q.size + xs.length) + 1 :=
-  PQueue.pushAll_realloc_log tp grow hg hd q xs m h hl
+  PQueue.pushAll_realloc_log tp grow hd q xs m h ht hl
+
+/-! Non-vacuity of the whole hypothesis bundle of `appends_realloc_log`: a comparator that is a total
+preorder, the default growth law `c ↦ 2c`, a full heap satisfying the invariant on the configured
+triple, a ledger in which its blocks are live. -/
+example : TotalPreorder (keyCmp id) ∧ (∀ c, 2 * c ≤ (fun c => 2 * c) c) ∧
+    PQueue.Inv' (keyCmp id) { size := 3, capacity := 3, buf := [9, 4, 7] } ∧
+    ({ size := 3, capacity := 3, buf := [9, 4, 7] } : PQueue).triple = .conf ∧ 0 < ({ live := 2 } : Mem).live :=
+  ⟨keyCmp_totalPreorder id, fun _ => Nat.le_refl _, ⟨by decide, by decide⟩, rfl, by decide⟩
 
 end CC.Properties.C20PQueue
